@@ -134,6 +134,7 @@ public:
   inline sandbox_callback& operator=(sandbox_callback&& other)
   {
     if (this != &other) {
+      unregister();
       move_obj(std::forward<sandbox_callback>(other));
     }
     return *this;
